@@ -258,7 +258,7 @@ inductive HOp where
 def hstep : Pool × List Block → HOp → Pool × List Block
   | (s, ch), .add t => ((s.addTransaction t).1, ch)
   | (s, ch), .mark b => ((s.markExecuted b.receipts b.txs b.evicted).1, b :: ch)
-  | (s, b :: ch), .remove => (s.unmark b.txs, ch)
+  | (s, b :: ch), .remove => (s.unmarkE b.txs b.evicted, ch)
   | (s, []), .remove => (s, [])
   | (s, ch), .expire => (s.expire, ch)
 
@@ -306,10 +306,10 @@ theorem history_refines (limit : Nat) (s : Pool) (ch : List Block) (hr : Reach l
       | nil => exact ⟨hi, hx, hc⟩
       | cons b rest =>
         obtain ⟨hcov, hfresh, hc'⟩ := hc
-        refine ⟨inv_unmark _ hi, ?_, hc'⟩
+        refine ⟨inv_unmarkE _ _ hi, ?_, hc'⟩
         intro k
         simp only [hstep]
-        rw [mem_exec_unmark, hx]
+        rw [execHashes_unmarkE, mem_exec_unmark, hx]
         simp only [executedOn, List.mem_append]
         constructor
         · rintro ⟨h1 | h1, h2⟩
@@ -351,21 +351,21 @@ is not executed on the remaining chain, and — if the container has room for th
 (so `PackForCast` sees it). -/
 theorem reorg_restores_partial (limit : Nat) (s : Pool) (b : Block) (ch : List Block)
     (hr : Reach limit s (b :: ch)) (hroom : s.pending.length + b.txs.length ≤ s.limit) :
-    ∀ t ∈ b.txs, (s.unmark b.txs).contains t.hash = true ∧ (s.unmark b.txs).isExecuted t.hash = false ∧
+    ∀ t ∈ b.txs, (s.unmarkE b.txs b.evicted).contains t.hash = true ∧ (s.unmarkE b.txs b.evicted).isExecuted t.hash = false ∧
       t.hash ∉ executedOn ch := by
   obtain ⟨_, _, _, hfresh, _⟩ := history_refines limit s (b :: ch) hr
   intro t ht
-  refine ⟨contains_iff.mpr (mem_hashes_unmark b.txs hroom t ht), ?_, hfresh t ht⟩
-  cases he : (s.unmark b.txs).isExecuted t.hash with
+  refine ⟨contains_iff.mpr (by rw [hashes_unmarkE]; exact mem_hashes_unmark b.txs hroom t ht), ?_, hfresh t ht⟩
+  cases he : (s.unmarkE b.txs b.evicted).isExecuted t.hash with
   | false => rfl
   | true =>
-    have := (mem_exec_unmark b.txs t.hash).mp (isExecuted_iff.mp he)
+    have := (mem_exec_unmark b.txs t.hash).mp (by rw [← execHashes_unmarkE s b.txs b.evicted]; exact isExecuted_iff.mp he)
     exact absurd (List.mem_map_of_mem ht) this.2
 
 /-- The reorg clause as the property states it: without the proviso about room. -/
 def FullStatementReorg : Prop :=
   ∀ (limit : Nat) (s : Pool) (b : Block) (ch : List Block), Reach limit s (b :: ch) →
-    ∀ t ∈ b.txs, (s.unmark b.txs).contains t.hash = true
+    ∀ t ∈ b.txs, (s.unmarkE b.txs b.evicted).contains t.hash = true
 
 /-- False of the model and of the code (`known: key=unmark-lost-full-pool`): `push` silently drops when
 the container is full. Limit 1: add A, block {A} is put on the chain, add B, the block is removed —
